@@ -10,7 +10,7 @@ from . import flow, tlc
 from .builder_rec import RecWriter
 from .check_c09 import STYLES
 
-EOLS = {"\n": "\\n", "\r\n": "\\r\\n"}
+EOLS = {"\n": "\\n", "\r\n": "\\r\\n", "\r": "\\r"}
 
 
 def dec(x):
@@ -103,7 +103,7 @@ def values(rng, signed, n):
 
 def make_builder(cfg):
     from gscrib import GCodeBuilder
-    g = GCodeBuilder(decimal_places=cfg["dp"], comment_symbols=cfg["style"], line_endings=EOLS[cfg["eol"]],
+    g = GCodeBuilder(decimal_places=cfg["dp"], comment_symbols=cfg["style"], line_endings=cfg["eol"] if cfg.get("raw_eol") else EOLS[cfg["eol"]],
                      x_axis=cfg["labels"][0], y_axis=cfg["labels"][1], z_axis=cfg["labels"][2])
     try:
         while True:
@@ -182,7 +182,8 @@ class P(flow.Plan):
             for style in ([";", "(", "/*", "#"] if tier == "thorough" else [";", "("]):
                 k += 1
                 rng = random.Random(sd * 31 + k)
-                cfg = {"dp": dp, "style": style, "eol": rng.choice(["\n", "\r\n"]),
+                # the ending in its escaped spelling or as real control characters (raw; added after seed C08g)
+                cfg = {"dp": dp, "style": style, "eol": rng.choice(["\n", "\r\n", "\r\n", "\r"]), "raw_eol": k % 2 == 0,
                        "labels": rng.choice([["X", "Y", "Z"], ["A", "B", "C"], ["U", "V", "W"], ["X", "Y", "Z"]])}
                 ev = []
                 for cmd in CMDS:
